@@ -155,4 +155,14 @@ CHECKS["C12"] = {
     "parts": [{"bin": "C12_context"}],
 }
 
+CHECKS["C18"] = {
+    "registered": True,
+    "engine": "seqx",
+    "technique": "BFS over wrapper operation histories de-duplicated on the reference model, every transition replayed on fresh real wrappers and compared step by step with the un-erased behaviour (differential) + lifetime ledger",
+    "level_text": "All histories to depth 4 (5 thorough) over two wrapper slots - assign a small / larger-than-inline-buffer / throwing / move-only callable or empty, copy-assign (incl. self), move-assign, reset, swap, call, copy-construct a temporary - for function and unique_function, and 12 move/copy/reset/connect scripts x inline/heap stored sender x value/error/stopped for any_sender and unique_any_sender, are executed on the real wrappers; empty flags, call results (per-copy counters show copies are independent), exception kinds on empty use, and the number of live instances per payload kind after every step and at the end are compared with the un-erased reference.",
+    "level_note": "Sequential code only; two slots; one payload clearly below and one clearly above the inline buffer size rather than every size around the threshold.",
+    "rule": "seqx: BFS histories depth<=4/5 over 2 slots; sender scripts grid",
+    "parts": [{"bin": "C18_type_erasure", "part": "seq"}],
+}
+
 PENDING = {}
